@@ -1,20 +1,123 @@
 //! Known-defect zones.
 //!
 //! Some genuine defects of the unchanged tree are too deep for a small fix
-//! (see NOTES.md / PROPOSED_FINDINGS.json). Each of them is reproduced on every
-//! run by a *directed* scenario whose signature is listed as a known finding.
-//! To keep the random exploration able to say anything about the rest of the
-//! space, the generator does not walk into the syntactic neighbourhood of
-//! those findings; every rejected candidate is counted in the evidence
-//! (`zone_rejected:<zone>`). The oracles are unchanged: a history inside a
-//! zone that is executed (replay, directed scenarios, ddmin candidates) is
-//! judged exactly like any other.
+//! (inode state is keyed by path: see NOTES.md / PROPOSED_FINDINGS.json). Each
+//! of them is reproduced on every run by a *directed* scenario whose
+//! signature is listed as a known finding. To keep the random exploration
+//! able to say anything about the rest of the space, the generator does not
+//! walk into the syntactic neighbourhood of those findings; every rejected
+//! candidate is counted in the evidence (`zone_rejected:<zone>`). The oracles
+//! are unchanged: a history inside a zone that is executed (replay, directed
+//! scenarios) is judged exactly like any other.
+//!
+//! Zones (all defined on the reference model's view of the history, never on
+//! implementation state):
+//!
+//! * `rename-dir`            — any rename whose source is a directory
+//! * `rename-pending-data`   — rename of a regular file that has data
+//!                             operations (write / set_len / truncate) not yet
+//!                             followed by a sync_all/sync_data/fsync of it,
+//!                             or onto an existing file in that state
+//! * `write-after-rename`    — data operation or file sync on a file whose
+//!                             rename has not been followed by a sync_dir of
+//!                             the source or destination directory
+//! * `recreate`              — creating a file (or renaming onto a name) where
+//!                             a regular file existed earlier in the history
+//!                             and whose removal / pending data has not been
+//!                             flushed (sync_dir of the parent after the
+//!                             removal of a file without unsynced data)
 
-use crate::model::Tree;
-use crate::ops::Op;
+use crate::model::{Node, Tree};
+use crate::ops::{parent_of, Op, Step};
+use std::collections::{BTreeMap, BTreeSet};
 
-#[derive(Default)]
-pub struct Tracker {}
+#[derive(Default, Clone)]
+pub struct Tracker {
+    /// files with unsynced data operations
+    dirty: BTreeSet<String>,
+    /// rename destinations not yet flushed: dest -> source parent
+    renamed: BTreeMap<String, String>,
+    /// names at which a regular file died: path -> had unsynced data
+    dead: BTreeMap<String, bool>,
+}
+
+fn is_file(t: &Tree, p: &str) -> bool {
+    matches!(t.lookup(p).ok().map(|i| &t.nodes[&i]), Some(Node::File(_)))
+}
+fn is_dir(t: &Tree, p: &str) -> bool {
+    matches!(t.lookup(p).ok().map(|i| &t.nodes[&i]), Some(Node::Dir(_)))
+}
+
+/// Does this op (if it succeeds) create an object at a missing path?
+fn creates(t: &Tree, op: &Op) -> Option<String> {
+    let (p, can) = match op {
+        Op::WriteAll { p, .. } => (p, true),
+        Op::CreateDir { p, .. } => (p, true),
+        Op::Open { p, fl, .. } | Op::Handle { p, fl, .. } => {
+            (p, (fl.create || fl.create_new) && (fl.write || fl.append))
+        }
+        _ => return None,
+    };
+    if can && t.lookup(p).is_err() {
+        Some(p.clone())
+    } else {
+        None
+    }
+}
+
+/// Data operations of an op on an existing file; returns (path, dirty_after)
+/// where dirty_after tells whether unsynced data remains after the op.
+fn data_effect(t: &Tree, op: &Op) -> Option<(String, bool, Option<bool>)> {
+    // (path, touches_data_or_syncs, dirty_after)
+    match op {
+        Op::WriteAt { p, n, .. } => Some((p.clone(), true, if *n > 0 { Some(true) } else { None })),
+        Op::Append { p, .. } => Some((p.clone(), true, Some(true))),
+        Op::SetLen { p, .. } => Some((p.clone(), true, Some(true))),
+        Op::WriteAll { p, .. } => Some((p.clone(), true, Some(true))),
+        Op::SyncAll { p, .. } | Op::SyncData { p, .. } => Some((p.clone(), true, Some(false))),
+        Op::Open { p, fl, .. } => {
+            if fl.truncate && fl.write && !fl.create_new {
+                Some((p.clone(), true, Some(true)))
+            } else {
+                None
+            }
+        }
+        Op::Handle { p, fl, steps, .. } => {
+            let mut touched = fl.truncate && fl.write && !fl.create_new;
+            let mut dirty: Option<bool> = if touched { Some(true) } else { None };
+            for s in steps {
+                match s {
+                    Step::Write { n, .. } | Step::WriteAt { n, .. } => {
+                        if fl.write || fl.append {
+                            touched = true;
+                            if *n > 0 {
+                                dirty = Some(true);
+                            }
+                        }
+                    }
+                    Step::SetLen { .. } => {
+                        if fl.write || fl.append {
+                            touched = true;
+                            dirty = Some(true);
+                        }
+                    }
+                    Step::SyncAll | Step::SyncData => {
+                        touched = true;
+                        dirty = Some(false);
+                    }
+                    _ => {}
+                }
+            }
+            let _ = t;
+            if touched {
+                Some((p.clone(), true, dirty))
+            } else {
+                None
+            }
+        }
+        _ => None,
+    }
+}
 
 impl Tracker {
     pub fn new() -> Tracker {
@@ -22,10 +125,170 @@ impl Tracker {
     }
 
     /// Would `op`, issued in model state `t`, enter a known-defect zone?
-    pub fn check(&self, _t: &Tree, _op: &Op) -> Option<&'static str> {
+    pub fn check(&self, t: &Tree, op: &Op) -> Option<&'static str> {
+        if let Op::CreateDirAll { p, .. } = op {
+            // every missing prefix is created
+            let cs = crate::ops::comps(p);
+            let mut cur = String::new();
+            for c in cs {
+                cur.push('/');
+                cur.push_str(c);
+                if t.lookup(&cur).is_err() && self.dead.contains_key(&cur) {
+                    return Some("recreate");
+                }
+            }
+            return None;
+        }
+        if let Op::Rename { a, b, .. } = op {
+            if is_dir(t, a) {
+                return Some("rename-dir");
+            }
+            if is_file(t, a) && a != b {
+                if self.dirty.contains(a) {
+                    return Some("rename-pending-data");
+                }
+                if is_file(t, b) && self.dirty.contains(b) {
+                    return Some("rename-pending-data");
+                }
+                if self.renamed.contains_key(a) {
+                    return Some("write-after-rename");
+                }
+                if self.dead.contains_key(b) {
+                    return Some("recreate");
+                }
+            }
+            return None;
+        }
+        if let Some(p) = creates(t, op) {
+            if self.dead.contains_key(&p) {
+                return Some("recreate");
+            }
+        }
+        if let Some((p, touched, _)) = data_effect(t, op) {
+            if touched && is_file(t, &p) && self.renamed.contains_key(&p) {
+                return Some("write-after-rename");
+            }
+        }
         None
     }
 
-    /// Record `op` (about to be applied in state `t`).
-    pub fn apply(&mut self, _t: &Tree, _op: &Op) {}
+    fn kill_file(&mut self, p: &str) {
+        let stale = self.dirty.remove(p);
+        self.renamed.remove(p);
+        self.dead.insert(p.to_string(), stale);
+    }
+
+    /// Record `op` (about to be applied in model state `t`).
+    pub fn apply(&mut self, t: &Tree, op: &Op) {
+        match op {
+            Op::Crash => {
+                *self = Tracker::default();
+                return;
+            }
+            Op::Rename { a, b, .. } => {
+                if is_file(t, a) && a != b {
+                    // would the model accept it?
+                    let mut probe = t.clone();
+                    if matches!(probe.apply(op), crate::model::Expect::Ok(_)) {
+                        if is_file(t, b) {
+                            self.dirty.remove(b);
+                            self.renamed.remove(b);
+                        }
+                        let was_dirty = self.dirty.remove(a);
+                        self.renamed.remove(a);
+                        self.dead.insert(a.clone(), was_dirty);
+                        self.dead.remove(b);
+                        if was_dirty {
+                            self.dirty.insert(b.clone());
+                        }
+                        self.renamed.insert(b.clone(), parent_of(a));
+                    }
+                }
+                return;
+            }
+            Op::RemoveFile { p, .. } => {
+                if is_file(t, p) {
+                    self.kill_file(p);
+                }
+                return;
+            }
+            Op::RemoveDirAll { p, .. } => {
+                if is_dir(t, p) {
+                    let prefix = format!("{p}/");
+                    let victims: Vec<String> = crate::ops::universe()
+                        .into_iter()
+                        .filter(|q| q.starts_with(&prefix) && t.lookup(q).is_ok())
+                        .collect();
+                    for v in victims {
+                        self.kill_file(&v);
+                    }
+                    self.kill_file(p);
+                }
+                return;
+            }
+            Op::RemoveDir { p, .. } => {
+                if is_dir(t, p) && t.lookup(p).map(|i| t.dir(i).is_empty()).unwrap_or(false) {
+                    self.kill_file(p);
+                }
+                return;
+            }
+            Op::SyncDir { p, .. } => {
+                if is_dir(t, p) {
+                    self.renamed
+                        .retain(|dst, srcpar| !(parent_of(dst) == *p || srcpar == p));
+                    self.dead
+                        .retain(|path, stale| *stale || parent_of(path) != *p);
+                }
+                return;
+            }
+            _ => {}
+        }
+        // creation / data effects
+        let mut probe = t.clone();
+        let ok = !matches!(probe.apply(op), crate::model::Expect::Err(_));
+        if !ok {
+            return;
+        }
+        if let Some(p) = creates(t, op) {
+            self.dead.remove(&p);
+        }
+        if let Op::CreateDirAll { p, .. } = op {
+            let mut cur = String::new();
+            for c in crate::ops::comps(p) {
+                cur.push('/');
+                cur.push_str(c);
+                self.dead.remove(&cur);
+            }
+        }
+        if let Some((p, _, dirty_after)) = data_effect(t, op) {
+            if is_file(&probe, &p) {
+                match dirty_after {
+                    Some(true) => {
+                        self.dirty.insert(p);
+                    }
+                    Some(false) => {
+                        self.dirty.remove(&p);
+                    }
+                    None => {}
+                }
+            }
+        }
+    }
+}
+
+/// Does the history enter any known-defect zone?
+pub fn in_zone(h: &[Op]) -> Option<&'static str> {
+    let mut t = Tree::new();
+    let mut zt = Tracker::new();
+    for op in h {
+        if let Some(z) = zt.check(&t, op) {
+            return Some(z);
+        }
+        zt.apply(&t, op);
+        if !matches!(op, Op::Crash) {
+            t.apply(op);
+            t.events.clear();
+        }
+    }
+    None
 }
